@@ -83,6 +83,8 @@ def gen_job(verif_seed, tier, index):
     job["c07_mode"] = mode
     if kinds:
         job["build_spec"] = bldgen.gen_build_spec(g, spec, box, kinds, est_size=sizes)
+    if mode in ("geom", "rw") and g.random() < 0.3:
+        jobgen.add_list_order(job, g)
     if g.random() < 0.25 and mode in ("geom", "rw", "cycle"):
         # -start on a molecule that also has a persistence length (which fixes the first residue itself) or a
         # distance restraint spanning the start residue is a contradictory / refused input: not generated
